@@ -63,7 +63,10 @@ Definition commute (self : req) (cur : uop) (tcols : gset tag) : commutator :=
   | RJoin j f lhs =>
       match cur with
       | Dedup => comm_fail cur
-      | Proj _ => Comm (Some self) (Proj (ccols ∪ columns f)) true
+      | Proj _ =>
+          (* a column the projection hides and the fixed operand also has would collide once the join is upstream *)
+          if negb (bool_decide ((tcols ∖ ccols) ∩ columns f = ∅)) then comm_fail cur
+          else Comm (Some self) (Proj (ccols ∪ columns f)) true
       | _ =>
           if (match cur with Calc t _ => bool_decide (t ∈ columns f) | _ => false end) then comm_fail cur
           else if negb (bool_decide (pjoin_required j f ⊆ tcols)) then comm_fail cur
